@@ -351,10 +351,17 @@ func (d *EVMDownloaderImplementation) getEventsByBlockRangeWithRetry(
 					if retryCount >= MaxRetryCountBlockHashMismatch {
 						// Log an error and return nil if the maximum retry count is reached.
 						d.log.Errorf(
-							"max retry attempts %d reached for block hash mismatch on block %d, returning nil",
-							MaxRetryCountBlockHashMismatch, l.BlockNumber,
+							"max retry attempts %d reached for block hash mismatch on block %d, "+
+								"returning only the %d blocks verified before it",
+							MaxRetryCountBlockHashMismatch, l.BlockNumber, len(blocks),
 						)
-						return nil
+						if len(blocks) == 0 {
+							return nil
+						}
+						// The blocks before the mismatching one have been cross-checked against their
+						// headers: hand them over instead of dropping their events, the caller resumes
+						// right after the last one of them.
+						return blocks
 					}
 					// Retry the operation with an incremented retry count.
 					return d.getEventsByBlockRangeWithRetry(ctx, fromBlock, toBlock, retryCount+1)
